@@ -107,6 +107,10 @@ def scenarios():
     S('cif_pktitr_next_packet (into a packet lacking two of the items)', 'itr.next I0 P1', setup=it + ['pkt.create P1 1 %s' % u('_b')], modifies=False, obs=['pkt.dump P1'], after=fin, iterator=True)
     S('cif_pktitr_next_packet (into an empty packet)', 'itr.next I0 P1', setup=it + ['pkt.create P1 0'], modifies=False, obs=['pkt.dump P1'], after=fin, iterator=True)
     S('cif_pktitr_next_packet (into a packet of another loop)', 'itr.next I0 P1', setup=it + ['pkt.create P1 2 %s %s' % (u('_fl'), u('_zz')), 'pkt.set P1 %s V2' % u('_fl')], modifies=False, obs=['pkt.dump P1'], after=fin, iterator=True)
+    # the LAST packet of the loop (the statement has reached its end when the packet is handed over), into packets that lack items
+    S('cif_pktitr_next_packet (last packet, into a packet lacking two of the items)', 'itr.next I0 P1', setup=it + ['itr.next I0', 'itr.next I0', 'pkt.create P1 1 %s' % u('_b')], modifies=False, obs=['pkt.dump P1'], after=['itr.next I0'] + fin, iterator=True)
+    S('cif_pktitr_next_packet (last packet, into an empty packet)', 'itr.next I0 P1', setup=it + ['itr.next I0', 'itr.next I0', 'pkt.create P1 0'], modifies=False, obs=['pkt.dump P1'], after=fin, iterator=True)
+    S('cif_pktitr_next_packet (last packet, new packet)', 'itr.next I0', setup=it + ['itr.next I0', 'itr.next I0'], modifies=False, obs=[], after=fin, iterator=True)
     S('cif_pktitr_next_packet (NULL)', 'itr.next I0 -', setup=it, modifies=False, obs=[], after=fin, iterator=True)
     S('cif_pktitr_update_packet', 'itr.update I0 P1', setup=it + ['itr.next I0', 'pkt.create P1 2 %s %s' % (u('_b'), u('_c')), 'pkt.set P1 %s V3' % u('_b'), 'pkt.set P1 %s V1' % u('_c')],
       obs=[], after=['itr.close I0', 'dump C0', 'autocommit C0'], iterator=True)
@@ -217,6 +221,9 @@ def scenarios():
         st = ['bytes.set B0 %s' % doc.hex()]
         S('cif_parse (%s, syntax only)' % nm, 'parse - B0', setup=st, modifies=False, base=False, obs=[])
         S('cif_parse (%s, syntax only, handlers)' % nm, 'parse - B0 h=2 syn=1', setup=st, modifies=False, base=False, obs=[])
+        # handlers that query what they are given through the public API (names and category of the provisional loop, ...)
+        S('cif_parse (%s, syntax only, handlers that query their arguments)' % nm, 'parse - B0 h=1', setup=st, modifies=False, base=False, obs=[])
+        S('cif_parse (%s, new CIF, handlers that query their arguments and set loop categories)' % nm, 'parse new:C1 B0 h=1 setcat=1', setup=st, modifies=False, base=False, obs=[], after=['dump C1'], same_after_retry=True)
         S('cif_parse (%s, new CIF)' % nm, 'parse new:C1 B0', setup=st, modifies=False, base=False, obs=[], after=['dump C1'], same_after_retry=True)
         # documented: "In the event of a failure ... the provided CIF object may still be modified", so only consistency is required
         S('cif_parse (%s, into an existing CIF)' % nm, 'parse C0 B0', setup=st, obs=[], after=CIF_OBS + ['walk C0 log=0'], retry=False, incremental=True)
